@@ -295,6 +295,51 @@ def sec_of(aref, names):
     return ["sec", names.id(aref.name), fix, ex(rg.start, names), ex(rg.stop, names), ex(rg.step, names)]
 
 
+def sec2_of(aref, names):
+    """rank-2 ArrayReference with two Ranges (or a plain Reference to a rank-2 array) -> model Sec2"""
+    from psyclone.psyir import nodes as N
+    if type(aref) is N.Reference:
+        dims = ARRAYS.get(aref.name.lower())
+        if dims is None or len(dims) != 2:
+            raise OutOfDomain("whole-array reference of rank != 2")
+        return ["sec2", names.id(aref.name)] + [x for lo, hi in dims for x in (["lit", lo], ["lit", hi], ["lit", 1])]
+    idx = aref.indices
+    if len(idx) != 2 or not all(isinstance(x, N.Range) for x in idx):
+        raise OutOfDomain("not two ranges")
+    out = ["sec2", names.id(aref.name)]
+    for rg in idx:
+        out += [ex(rg.start, names), ex(rg.stop, names), ex(rg.step, names)]
+    return out
+
+
+def aexpr2_of(node, names):
+    from psyclone.psyir import nodes as N
+    if not node.walk(N.Range) and not any(type(r) is N.Reference and r.symbol.is_array and
+                                          not (isinstance(r.parent, N.IntrinsicCall) and r.parent.is_inquiry)
+                                          for r in node.walk(N.Reference)):
+        return ["sc", ex(node, names)]
+    if isinstance(node, N.ArrayReference) or type(node) is N.Reference:
+        return ["asec2", sec2_of(node, names)]
+    if isinstance(node, N.BinaryOperation):
+        op = minif._BIN.get(node.operator.name)
+        if op is None:
+            raise OutOfDomain(node.operator.name)
+        return ["bin", op, aexpr2_of(node.children[0], names), aexpr2_of(node.children[1], names)]
+    if isinstance(node, N.UnaryOperation):
+        return ["un", minif._UN[node.operator.name], aexpr2_of(node.children[0], names)]
+    if isinstance(node, N.IntrinsicCall):
+        nm = node.intrinsic.name
+        args = [aexpr2_of(a, names) for a in node.arguments]
+        if nm == "ABS":
+            return ["un", "abs", args[0]]
+        if nm in ("MIN", "MAX", "SIGN") and len(args) >= 2:
+            out = args[0]
+            for a in args[1:]:
+                out = ["bin", nm.lower(), out, a]
+            return out
+    raise OutOfDomain(type(node).__name__)
+
+
 def aexpr_of(node, names):
     from psyclone.psyir import nodes as N
     if not node.walk(N.Range) and not any(type(r) is N.Reference and r.symbol.is_array and
